@@ -37,4 +37,10 @@ def main():
             wirerun.build_package(sx, 1, lab)
         except Exception as e:
             print("setup: evolution package %s does not build: %s" % (lab, e))
+    import frontrun
+    frontrun.model_bin()
+    try:
+        frontrun.fexec_bin()
+    except Exception as e:
+        print("setup: fexec does not build: %s" % e)
     print("setup done in %.0fs" % (time.time() - t0))
